@@ -41,7 +41,7 @@ INDUCTION = "induction over events (connect, cmd, disconnect, sweep, restart): I
 PROPS = {
     "C01": {"census": [CENSUS.messages_writers], "assumptions": A_PY + A_SQL + A_FW,
             "paper_steps": [INDUCTION, "restart: C01 is stated over the database only (A8)"]},
-    "C02": {"census": [CENSUS.heap_fields], "assumptions": A_PY + A_SQL + A_FW, "conditioned_on": ["F1"],
+    "C02": {"census": [CENSUS.heap_fields], "lemmas": [LEMMAS.induction_base], "assumptions": A_PY + A_SQL + A_FW, "conditioned_on": ["F1"],
             "paper_steps": [INDUCTION, "Sub(a,m) is the listener set of the one registered Mailbox object (GH4, GH5, H1-H3)"]},
     "C03": {"census": [CENSUS.heap_fields], "lemmas": [LEMMAS.distinct_mailboxes], "assumptions": A_PY + A_SQL + ["A14 fresh mailbox ids"],
             "paper_steps": [INDUCTION, "ids of retired incarnations differ from new ones by A14"]},
@@ -71,13 +71,14 @@ PROPS = {
                             "one record per retirement in prune: one per loop iteration (loop step clauses), one iteration per retired object"]},
     "C16": {"census": [CENSUS.usage_timestamp_writers, TAP.constants], "lemmas": [LEMMAS.sorted_lemmas],
             "assumptions": A_PY + A_SQL[:1] + ["A16", "A2: timestamps are reals, x // b is floor division on reals"], "paper_steps": []},
-    "C17": {"census": [CENSUS.send_is_only_emitter], "assumptions": A_PY + A_SQL + A_FW, "conditioned_on": ["F2", "F10"],
+    "C17": {"census": [CENSUS.send_is_only_emitter, CENSUS.make_server_welcome], "lemmas": [LEMMAS.induction_base], "assumptions": A_PY + A_SQL + A_FW, "conditioned_on": ["F2", "F10"],
             "paper_steps": [INDUCTION, "identifiers containing lone surrogates are outside A9 (DESIGN 11)"]},
-    "C18": {"census": [CENSUS.get_nameplate_ids_callers, CENSUS.allow_list_readers, TAP.constants],
+    "C18": {"census": [CENSUS.get_nameplate_ids_callers, CENSUS.allow_list_readers, TAP.constants, DEPENDS.config_free],
+            "canaries": [DEPENDS.canary_config],
             "functions_all": ["server.AppNamespace.get_nameplate_ids", "server_websocket.WebSocketServer.handle_list"],
             "assumptions": A_PY + A_SQL + A_FW,
             "paper_steps": ["C18.config_independent: every contract is proved for symbolic allow_list / usage_db / blur_usage / log_requests, and no postcondition about the channel tables, the outboxes or connection state mentions them (except handle_list's answer): equal runs (DESIGN 9)"]},
-    "C11": {"census": [DEPENDS.registry_free, CENSUS.heap_fields], "canaries": [DEPENDS.canary],
+    "C11": {"census": [DEPENDS.registry_free, CENSUS.heap_fields], "canaries": [DEPENDS.canary], "lemmas": [LEMMAS.induction_base],
             "functions_all": ["server_websocket.WebSocketServer." + h for h in DEPENDS.EVENTS] + [
                 "server_websocket.WebSocketServer.onClose", "server.Server.get_app", "server.AppNamespace.open_mailbox"],
             "assumptions": A_PY + A_SQL + A_FW, "conditioned_on": ["F1"],
@@ -185,6 +186,26 @@ def thorough_extras(pid):
     for f in load_findings():
         if pid in f["properties"]:
             out["findings_native"][f["id"]] = ("present" if finding_present(f) else "absent") + " (status %s)" % f["status"]
+    # the independent native demonstrations written for this property (seeded/*/demo.py) must pass on this tree
+    import shutil, tempfile
+    for n in sorted(os.listdir(os.path.join(HERE, "seeded"))):
+        d = os.path.join(HERE, "seeded", n)
+        try:
+            meta = json.load(open(os.path.join(d, "meta.json")))
+        except Exception:
+            continue
+        if meta.get("property") != pid:
+            continue
+        tmp = tempfile.mkdtemp(prefix="pvc-demo-", dir="/var/tmp")
+        try:
+            shutil.copy(os.path.join(d, "demo.py"), tmp)
+            r = subprocess.run(["/venv/bin/python", "demo.py"], cwd=tmp, capture_output=True, text=True, timeout=900,
+                               env=dict(os.environ, PYTHONPATH=os.path.join(os.environ.get("PVC_REPO", "/repo"), "src")))
+            out.setdefault("native_demos", {})[n] = {"exit": r.returncode, "last_line": (r.stdout.strip().splitlines() or [""])[-1][:200]}
+        except Exception as e:
+            out.setdefault("native_demos", {})[n] = {"exit": -1, "last_line": str(e)[:200]}
+        finally:
+            shutil.rmtree(tmp, ignore_errors=True)
     # differential cross-check of the contracts (and with them the SQL semantics) against CPython + SQLite
     DIFF_TARGETS = {"Mailbox.open": ["C05", "C08", "C12", "C14"], "Mailbox._add_message": ["C01", "C02", "C09", "C12"],
                     "AppNamespace.release_nameplate": ["C07", "C14", "C15", "C16"],
